@@ -13,6 +13,14 @@ No imports: this file is part of the executable model.
 -/
 namespace HidVerif
 
+/-- Observable events, shared by the source and the target machine. -/
+inductive Ev
+  | out (b : Nat)
+  | flag (s : String)
+  | sleep (ms : Nat)
+  | note (s : String)     -- monitor output, never produced by a machine step
+  deriving DecidableEq, Repr, Inhabited
+
 /-- Result of one machine step. `fault` is a stuck state that is *not* a halt. -/
 inductive Step (σ ε : Type) where
   | next (s : σ) (ev : Option ε)
